@@ -338,6 +338,9 @@ func (s *scen) Apply(op int) bfs.Step {
 		obs := fmt.Sprintf("final:changes=%d,epoch-lengths=%d,drops=%t,drop-at-window-edge=%t,viol=%d", m.changes, len(m.lens), m.drops > 0, m.tightDrops > 0, len(m.pending))
 		return bfs.Step{Accepted: true, Prune: true, Obs: obs, Viol: m.pending}
 	}
+	if len(m.pending) > 0 {
+		panic("harness: a violating state was expanded")
+	}
 	r := s.rel() + o.adv
 	if m.changes >= s.maxChanges || r < 1 || r > horizon {
 		return bfs.Step{Accepted: false, Obs: "out-of-bound"}
@@ -345,6 +348,10 @@ func (s *scen) Apply(op int) bfs.Step {
 	for i := 0; i < o.adv; i++ {
 		if p := s.block(); p != "" {
 			return panicStep(p)
+		}
+		if len(m.pending) > 0 {
+			// reported at once (before the proposal); the engine does not expand a violating state
+			return bfs.Step{Accepted: true, Prune: true, Obs: "block-violation", Viol: m.pending}
 		}
 	}
 	res := w.ParamChangeGov(epochstoragetypes.ModuleName, o.key, fmt.Sprintf("\"%d\"", o.val))
@@ -358,6 +365,10 @@ func (s *scen) Apply(op int) bfs.Step {
 	}
 	m.changes++
 	s.check() // a proposal alone must not move any boundary
+	if len(m.pending) > 0 {
+		// reported at once; the engine does not expand a violating state
+		return bfs.Step{Accepted: true, Prune: true, Obs: "proposal-violation", Viol: m.pending}
+	}
 	return bfs.Step{Accepted: true, Obs: "proposal"}
 }
 
